@@ -4,6 +4,7 @@ CONSTANTS
   FixFinal = TRUE
   FixSpillMin = TRUE
   FixLeftId = TRUE
+  FixEmptyMerge = TRUE
   ShapeSet = "medium"
   Sizes = {0, 2, 3, 7}
   Spills = {0, 1, 3, 6}
